@@ -268,6 +268,7 @@ pub fn gen_libpar(r: &mut Rng, idx: usize) -> LibCase {
     let kinds: Vec<&str> = all_kinds.iter().zip(&selected).filter(|(_, s)| **s).map(|(k, _)| *k).collect();
     let yield_seed = r.next();
     let max_yield = *r.pick(&[0usize, 1, 3, 8]);
+    let nhosts = *r.pick(&[1usize, 1, 2, 3, 4]);
     LOG.with(|l| l.borrow_mut().clear());
     NEXT_SESS.with(|n| n.set(0));
     YIELDS.with(|y| *y.borrow_mut() = Rng::new(yield_seed));
@@ -288,7 +289,10 @@ pub fn gen_libpar(r: &mut Rng, idx: usize) -> LibCase {
             let _ = parent.run_script_async("control sortmode rowsort\n").await;
             // the parent's own `__DATABASE__` (the CLI binds it on every runner) is not the files'
             parent.set_var("__DATABASE__".to_string(), MGMT.to_string());
-            let res = parent.run_parallel_async(&glob, vec!["h".into()], lib_builder, jobs).await;
+            // one to four target hosts (files are dealt round-robin): the bound on files in flight is
+            // `jobs`, however many hosts there are
+            let hosts: Vec<String> = (0..nhosts).map(|k| format!("h{k}")).collect();
+            let res = parent.run_parallel_async(&glob, hosts, lib_builder, jobs).await;
             parent.shutdown_async().await;
             res.is_ok()
         })
@@ -417,8 +421,9 @@ pub fn gen_libpar(r: &mut Rng, idx: usize) -> LibCase {
         names,
         line,
         tag: format!(
-            "c17lib jobs={} part={:?} max_yield={} yield_seed={} files={:?} kinds={:?}",
+            "c17lib jobs={} hosts={} part={:?} max_yield={} yield_seed={} files={:?} kinds={:?}",
             jobs,
+            nhosts,
             part,
             max_yield,
             yield_seed,
